@@ -23,7 +23,7 @@ type NNICase struct {
 	Collect bool   `json:"collect,omitempty"` // true: the callback only stores the proposals, they are applied / undone in enumeration order afterwards
 }
 
-var rootMoves = []string{"reroot", "outgroup", "midpoint", "unroot", "rerootfirst", "rotate", "sort"}
+var rootMoves = []string{"reroot", "outgroup", "midpoint", "unroot", "rerootfirst", "rotate", "sort", "reinit", "graft", "nniapply"}
 
 func init() {
 	Register(&Engine{
@@ -52,7 +52,7 @@ func init() {
 		Exec:      execC17,
 		Real:      []string{"tree.NNIRearranger.Rearrange", "nni.Apply / Undo", "Tree.Reroot / RerootOutGroup / RerootMidPoint / UnRoot / RemoveSingleNodes", "Newick writer"},
 		Simulated: []string{"the history of root moves before the enumeration", "the apply/undo pattern inside the callback", "global math/rand seam seeded per step"},
-		Expected:  []string{"rooted", "unrooted", "root-moved", "apply-twice", "undo-twice", "collected-then-applied", "applied-inside-callback", "nni-command", "nni-command-several-trees", "nested-enumeration"},
+		Expected:  []string{"rooted", "unrooted", "root-moved", "apply-twice", "undo-twice", "collected-then-applied", "applied-inside-callback", "nni-command", "nni-command-several-trees", "nested-enumeration", "second-enumeration-after-a-kept-move"},
 	})
 }
 
@@ -166,6 +166,7 @@ func execC17(t *testing.T, cc any, o *Outcome) {
 		return fmt.Sprintf("rooted=%v\nhistory:\n  %s\ntree %s", rooted, strings.Join(hist, "\n  "), orig)
 	}
 	nprop := 0
+	rearranger := &tree.NNIRearranger{} // one generator object for every enumeration of the case, as a search would keep it
 	seen := map[string]int{}
 	removed := map[string]int{}
 	ok := guard(o, "enumeration", func() {
@@ -231,7 +232,7 @@ func execC17(t *testing.T, cc any, o *Outcome) {
 				// a binary tree with the same number of eligible branches and leave it unchanged
 				o.Probe("nested-enumeration")
 				inner := 0
-				(&tree.NNIRearranger{}).Rearrange(tr, func(r2 tree.Rearrangement) bool {
+				rearranger.Rearrange(tr, func(r2 tree.Rearrangement) bool {
 					inner++
 					if r2.Apply() != nil || r2.Undo() != nil {
 						inner = -1 << 20
@@ -268,7 +269,7 @@ func execC17(t *testing.T, cc any, o *Outcome) {
 		}
 		if c.Collect {
 			o.Probe("collected-then-applied")
-			(&tree.NNIRearranger{}).Rearrange(tr, func(re tree.Rearrangement) bool { collected = append(collected, re); return true })
+			rearranger.Rearrange(tr, func(re tree.Rearrangement) bool { collected = append(collected, re); return true })
 			for _, re := range collected {
 				if !visit(re) {
 					break
@@ -276,7 +277,7 @@ func execC17(t *testing.T, cc any, o *Outcome) {
 			}
 		} else {
 			o.Probe("applied-inside-callback")
-			(&tree.NNIRearranger{}).Rearrange(tr, visit)
+			rearranger.Rearrange(tr, visit)
 		}
 	})
 	if !ok || len(o.Viols) > 0 {
@@ -300,6 +301,46 @@ func execC17(t *testing.T, cc any, o *Outcome) {
 	}
 	o.Nontrivial = moved && nprop >= 4
 	o.Key = orig
+	if len(o.Viols) == 0 && len(c.Pattern) > 2 && nprop > 0 {
+		// a search step: keep one of the proposed moves, then enumerate the neighbours of the new tree with the same generator
+		guard(o, "second-enumeration", func() {
+			var first []tree.Rearrangement
+			rearranger.Rearrange(tr, func(re tree.Rearrangement) bool { first = append(first, re); return true })
+			if len(first) == 0 || first[c.Pattern[0]%len(first)].Apply() != nil {
+				return
+			}
+			o.Probe("second-enumeration-after-a-kept-move")
+			kept := tr.Newick()
+			keptInner, err := splitKeysOf(kept, false)
+			if err != nil {
+				return
+			}
+			n2, dup := 0, map[string]bool{}
+			rearranger.Rearrange(tr, func(re tree.Rearrangement) bool {
+				n2++
+				if err := re.Apply(); err != nil {
+					o.Fail("nni:second-enumeration", "after a kept move, proposal %d of the next enumeration: Apply fails: %v\n%s\nkept %s", n2, err, ctx(), kept)
+					return false
+				}
+				after, _ := splitKeysOf(tr.Newick(), false)
+				out, in := setDiff(keptInner, after)
+				key := strings.Join(after, ";")
+				if len(out) != 1 || len(in) != 1 || dup[key] {
+					o.Fail("nni:second-enumeration", "after a kept move, proposal %d of the next enumeration lacks %v and adds %v (duplicate: %v)\n%s\nkept %s\nnow  %s", n2, out, in, dup[key], ctx(), kept, safeText(tr))
+					return false
+				}
+				dup[key] = true
+				if err := re.Undo(); err != nil || tr.Newick() != kept {
+					o.Fail("nni:second-enumeration", "after a kept move, proposal %d of the next enumeration: Undo fails (%v) or does not restore the tree\n%s\nkept %s\nnow  %s", n2, err, ctx(), kept, safeText(tr))
+					return false
+				}
+				return true
+			})
+			if len(o.Viols) == 0 && n2 != 2*nbranches {
+				o.Fail("nni:second-enumeration", "after a kept move the next enumeration makes %d proposals, %d expected\n%s\nkept %s", n2, 2*nbranches, ctx(), kept)
+			}
+		})
+	}
 	if len(o.Viols) == 0 {
 		checkNNICommand(t, o, c, orig)
 	}
